@@ -283,9 +283,27 @@ def linearize(t, atoms_ok=True):
             return {v: c * ca for v, c in b.items() if c * ca != 0}, ca * cb
         if not b:
             return {v: c * cb for v, c in a.items() if c * cb != 0}, ca * cb
-        # product of two non-constant forms: normalise into a polynomial atom
-        return {poly_atom(t): 1}, 0
+        # product of two non-constant forms: expand into monomial atoms (commutative normal form)
+        r = {}
+        for va, xa in a.items():
+            for vb, xb in b.items():
+                m = mono(va, vb)
+                r[m] = r.get(m, 0) + xa * xb
+        for va, xa in a.items():
+            if cb:
+                r[va] = r.get(va, 0) + xa * cb
+        for vb, xb in b.items():
+            if ca:
+                r[vb] = r.get(vb, 0) + xb * ca
+        return {v: c for v, c in r.items() if c != 0}, ca * cb
     return {t: 1}, 0
+
+
+def mono(a, b):
+    """monomial atom for the product of two atoms (each possibly a monomial already)"""
+    fa = a[1] if a[0] == 'mono' else (a,)
+    fb = b[1] if b[0] == 'mono' else (b,)
+    return ('mono', tuple(sorted(fa + fb, key=repr)))
 
 
 def poly_atom(t):
@@ -444,7 +462,9 @@ def range_constraints(atom):
     ty = TYPES.get(atom)
     if atom[0] == 'len':
         ty = 'usize'
-    if atom[0] == 'poly':
+    if atom[0] == 'mono':
+        if all(INT_RANGES.get(TYPES.get(f) or ('usize' if f[0] == 'len' else ''), (-1, 0))[0] >= 0 for f in atom[1]):
+            out.append((((atom, -1),), 0))
         return out
     if ty in INT_RANGES:
         lo, hi = INT_RANGES[ty]
@@ -494,59 +514,160 @@ def dnf(f, limit=4096):
     return [[f]]
 
 
-def conj_unsat(lits, extra_axioms=None):
-    """lits: list of NNF literals (cmp terms, atoms, ('not', atom)).  True only if certainly unsat."""
+def _flatten(f, units, pending):
+    """add NNF formula f to units (literals) / pending (disjunctions); returns False on trivial falsity"""
+    k = f[0]
+    if k == 'bool':
+        return f[1]
+    if k == 'and':
+        return _flatten(f[1], units, pending) and _flatten(f[2], units, pending)
+    if k == 'or':
+        pending.append(f)
+        return True
+    if k == 'cmp' and f[1] == 'ne':
+        pending.append(('or', ('cmp', 'lt', f[2], f[3]), ('cmp', 'lt', f[3], f[2])))
+        return True
+    units.append(f)
+    return True
+
+
+def _disjuncts(f):
+    if f[0] == 'or':
+        return _disjuncts(f[1]) + _disjuncts(f[2])
+    return [f]
+
+
+def _units_unsat(units, axioms):
     props = {}
-    lin_alts = []  # list of alternative-lists
-    base = []
-    for l in lits:
+    cs = []
+    for l in units:
         if l[0] == 'cmp':
             alts = cmp_to_constraints(l[1], l[2], l[3])
-            if len(alts) == 1:
-                base.extend(alts[0])
-            else:
-                lin_alts.append(alts)
+            cs.extend(alts[0])
         elif l[0] == 'not':
             a = l[1]
-            if props.get(a, False) is True:
+            if props.get(a) is True:
                 return True
             props[a] = False
-        elif l[0] == 'bool':
-            if not l[1]:
-                return True
         else:
-            if props.get(l, True) is False:
+            if props.get(l) is False:
                 return True
             props[l] = True
-    if len(lin_alts) > 10:
-        lin_alts = lin_alts[:10]  # weaker: ignore some disequalities (still sound for unsat proofs)
-    for choice in itertools.product(*lin_alts) if lin_alts else [()]:
-        cs = list(base)
-        for alt in choice:
-            cs.extend(alt)
-        atoms = atoms_of_linear(cs)
-        for a in atoms:
-            cs.extend(range_constraints(a))
-        if extra_axioms:
-            cs.extend(extra_axioms(atoms))
-        if not fm_unsat(cs):
+    if not cs:
+        return False
+    atoms = atoms_of_linear(cs)
+    for a in atoms:
+        cs.extend(range_constraints(a))
+    if axioms:
+        cs.extend(axioms(atoms))
+    if fm_unsat(cs):
+        return True
+    # product monotonicity: for monomials x*R and y*R with R >= 0 (by type), x <= y entails x*R <= y*R
+    monos = [a for a in atoms if a[0] == 'mono']
+    if len(monos) < 2:
+        return False
+    added = []
+
+    def leq(x, y):
+        if x == y:
+            return True
+        c = (((x, -1), (y, 1)) if repr(x) < repr(y) else ((y, 1), (x, -1)), 1)   # y - x + 1 <= 0, i.e. y < x
+        return fm_unsat(cs + [c])
+
+    for i, m1 in enumerate(monos):
+        for m2 in monos[i + 1:]:
+            if len(m1[1]) != len(m2[1]) or len(m1[1]) > 3:
+                continue
+            if not all(_nonneg(f) for f in m1[1] + m2[1]):
+                continue
+            for lo, hi in ((m1, m2), (m2, m1)):
+                found = False
+                for perm in itertools.permutations(hi[1]):
+                    if all(leq(x, y) for x, y in zip(lo[1], perm)):
+                        found = True
+                        break
+                if found:
+                    added.append(_norm({lo: 1, hi: -1}, 0))
+    if not added:
+        return False
+    return fm_unsat(cs + added)
+
+
+def _nonneg(f):
+    ty = TYPES.get(f) or ('usize' if f[0] == 'len' else None)
+    return ty in INT_RANGES and INT_RANGES[ty][0] >= 0
+
+
+def _mono_diff(m1, m2):
+    """if the monomials differ in exactly one factor: (x, y, common factors)"""
+    a, b = list(m1[1]), list(m2[1])
+    if len(a) != len(b):
+        return None
+    common = []
+    for f in list(a):
+        if f in b:
+            a.remove(f)
+            b.remove(f)
+            common.append(f)
+    if len(a) == 1 and len(b) == 1:
+        return a[0], b[0], common
+    return None
+
+
+class _Count:
+    def __init__(self):
+        self.n = 0
+
+
+def _dpll(units, pending, axioms, cnt):
+    cnt.n += 1
+    if cnt.n > 3000:
+        return False
+    if _units_unsat(units, axioms):
+        return True
+    if not pending:
+        return False
+    uset = set(units)
+    # unit propagation / choice of the smallest live disjunction
+    best = None
+    rest = []
+    for f in pending:
+        ds = []
+        sat = False
+        for d in _disjuncts(f):
+            if d in uset:
+                sat = True
+                break
+            if d[0] != 'and' and mk_not(d) in uset:
+                continue
+            ds.append(d)
+        if sat:
+            continue
+        if not ds:
+            return True
+        rest.append((f, ds))
+    if not rest:
+        return False
+    rest.sort(key=lambda x: (len(x[1]), x[0][0] == 'or' and x[0][1][0] == 'cmp' and x[0][2][0] == 'cmp'))
+    f, ds = rest[0]
+    others = [g for g, _ in rest[1:]]
+    for d in ds:
+        u2 = list(units)
+        p2 = list(others)
+        if not _flatten(d, u2, p2):
+            continue
+        if not _dpll(u2, p2, axioms, cnt):
             return False
     return True
 
 
 def unsat(formulas, axioms=None):
     """formulas: iterable of boolean terms (conjunction).  True only if certainly unsatisfiable."""
-    f = TRUE
+    units, pending = [], []
     for x in formulas:
-        f = mk_and(f, nnf(x))
-    try:
-        ds = dnf(f)
-    except Budget:
-        return False
-    for d in ds:
-        if not conj_unsat(d, axioms):
-            return False
-    return True
+        if not _flatten(nnf(x), units, pending):
+            return True
+    return _dpll(units, pending, axioms, _Count())
 
 
 def entails(pc, goal, axioms=None):
